@@ -5,7 +5,7 @@
    the translator read from hilbert_curve.rs / z_curve.rs (Gen/SfcGen.v). *)
 From Coupe Require Import Lib.Prelude Lib.SFloat Lib.Sorting Model.SfcPart Model.ZGeom Proofs.ZGeomProofs
   Proofs.SortingProofs Proofs.SfcProofs Proofs.ZCurveProofs Proofs.ZCheckProofs Proofs.ZOracleProofs Proofs.WqTermProofs Gen.SfcGen
-  Lib.Rayon Model.SfcSched Proofs.SfcSchedProofs Proofs.F64AddExact Proofs.SfcSchedExact Proofs.WqNonTermination.
+  Lib.Rayon Model.SfcSched Proofs.SfcSchedProofs Proofs.F64AddExact Proofs.SfcSchedExact Proofs.WqNonTermination Proofs.WqExactRound.
 From Coq Require Import Floats.SpecFloat Sorting.Permutation Sorting.Sorted.
 Open Scope nat_scope.
 
@@ -235,6 +235,37 @@ Example C09_nonvacuous_sched :
   hilbert_partition_s (fun _ => Node 3 (Node 1 Leaf Leaf) (Node 2 Leaf Leaf)) (f64_of_bits hilbert_split_tolerance_bits) 32 3 100 idx ws 4 (repeat 9%N 8)
   = hilbert_partition_s (fun _ => Leaf) (f64_of_bits hilbert_split_tolerance_bits) 32 3 100 idx ws 4 (repeat 9%N 8).
 Proof. vm_compute. reflexivity. Qed.
+
+(* GROUNDWORK for termination in the exact-sums regime (integer-valued
+   non-negative weights, total <= 2^53; NOT a termination theorem): f64 `-` and
+   `<` on integers of magnitude <= 2^53 are the integer operations, and in every
+   round of the quantile search the per-part weights, their prefix sums and the
+   total are the exact integers, for ANY position vector (sorted or not).
+   What is still missing for `C09_quantiles_terminate_exact_sums` is the bracket
+   invariant (docs/C09.md). *)
+Theorem C09_f64_sub_exact : forall a b : Z,
+  (Z.abs a <= 2 ^ 53)%Z -> (Z.abs b <= 2 ^ 53)%Z -> (Z.abs (a - b) <= 2 ^ 53)%Z ->
+  f64_sub (f64_of_Z a) (f64_of_Z b) = f64_of_Z (a - b).
+Proof. exact f64_sub_exact. Qed.
+Theorem C09_flt_on_integers : forall a b : Z, (Z.abs a <= 2 ^ 53)%Z -> (Z.abs b <= 2 ^ 53)%Z ->
+  flt (f64_of_Z a) (f64_of_Z b) = (a <? b)%Z.
+Proof. exact flt_oz. Qed.
+Theorem C09_round_sums_exact : forall positions n pts zs,
+  1 <= n -> Forall (fun z => (0 <= z)%Z) zs -> (sumZ zs <= 2 ^ 53)%Z ->
+  match pwZ positions pts zs (repeat 0%Z n) with
+  | Ok h =>
+      part_weights_of positions pts (map oz zs) (repeat fzero n) = Ok (map oz h)
+      /\ prefix_sums fzero (map oz h) = map oz (prefixZ 0 h)
+      /\ fold_left f64_add (map oz h) fnegzero = oz (sumZ h)
+      /\ Forall (fun z => (0 <= z)%Z) h /\ (sumZ h <= sumZ zs)%Z /\ length h = n
+  | Err e => part_weights_of positions pts (map oz zs) (repeat fzero n) = Err e
+  | Panic s => part_weights_of positions pts (map oz zs) (repeat fzero n) = Panic s
+  | OutOfFuel => part_weights_of positions pts (map oz zs) (repeat fzero n) = OutOfFuel
+  end.
+Proof. exact round_sums_exact. Qed.
+Print Assumptions C09_f64_sub_exact.
+Print Assumptions C09_flt_on_integers.
+Print Assumptions C09_round_sums_exact.
 
 (* fuel is only a bound: a result obtained with some fuel is the result with any
    larger fuel -- so "the model returns Ok with fuel F on this case" (checked on
